@@ -10,6 +10,9 @@ CLAIMS = {
  "C09": dict(cat="model_checking", ref="3 (C09)", technique="TLC action properties over T2Grid.tla (physical signature unchanged; MINC volume/chain clause) evaluated on TLC transitions replayed in the real code and on recorded traces",
    text="The physical signature (per-block volume/rock/centre, per-pair area, direction, each block's own distance, which block the gravity cosine designates as upper) is an operator of the spec; TLC checks it is unchanged by reorder/rename/demote and checks the MINC clause, on the model and on every recorded step of the real code.",
    note="Floats are interned as tokens (equal floats <-> equal tokens); MINC distances/areas are not specified; embed() not yet covered."),
+ "C16": dict(cat="model_checking", ref="3 (C16)", technique="TLA+ automaton of the Fortran numeric-field grammar (FortranNum.tla); TLC enumerates every character-class string and classifies recorded calls (FortranNumTrace.tla); each replayed through fortran_float/fortran_int",
+   text="TLC checks grammar-level laws (blanks ignored, D means E, every Fortran output form accepted) for all class strings within the length bound and emits each string's outcome class and parse tree; every string is concretised and run through the real readers, and rendered reals / arbitrary strings recorded from the real readers are classified by TLC. Right level: the property is a finite-alphabet language property of a fallback cascade.",
+   note="Expected numeric value = Python float()/int() of the canonical text built from the spec's parse tree (trusted leaf); length bound in evidence."),
 }
 REASONS_PENDING = "check not built yet in this revision (see DESIGN.md section 6 build order); the specification family applies"
 NA = {
